@@ -35,6 +35,10 @@ func Run(raw json.RawMessage) (any, error) {
 	for try := 0; try < 5; try++ {
 		if k.Kind == "nbs" {
 			obs, err = runNbs(raw)
+		} else if k.Kind == "git" {
+			obs, err = runGit(raw)
+		} else if k.Kind == "stress" {
+			obs, err = runStress(raw)
 		} else {
 			obs, err = runBlob(raw)
 		}
